@@ -101,14 +101,16 @@ def r1_slot_tables(run, w, mod, ce):
   ps = w.fn(M + "._parse_slot")
   v = H.View(ps)
   cfg = ps.cfg
-  disp = [(n, c) for (n, c, nm) in ps.calls() if isinstance(c.func, ast.Subscript) and
-          text(c.func.value) == "_SLOT_PARSERS"]
+  disp = [(n, c, v.res(c.func)) for (n, c, nm) in ps.calls()
+          if isinstance(v.res(c.func), ast.Subscript) and
+          text(v.res(c.func).value) == "_SLOT_PARSERS"]
   if len(disp) != 1:
     raise AnalysisError("%s._parse_slot: one dispatch _SLOT_PARSERS[<type>](<match>) expected" % M)
-  dn, dc = disp[0]
+  dn, dc, dfunc = disp[0]
+  dkey_at = v.resolve(dc.func)[1]
   loops = [l for l in v.enclosing_loops(dn.stmt) if isinstance(l, ast.For) and
            isinstance(l.target, ast.Name) and
-           v.t(dc.func.slice, v.loop_map(l)) == "_v0"]
+           v.t(dfunc.slice, v.loop_map(l), at=dkey_at) == "_v0"]
   if len(loops) != 1:
     raise AnalysisError("%s._parse_slot: the dispatch key is not the variable of a loop over the "
                         "allowed slot types" % M)
@@ -141,14 +143,8 @@ def r1_slot_tables(run, w, mod, ce):
   stops = not (cfg.reach_after({dn.id}, removed=removed) & {tm.head})
   # no allowed type matched: every way out of the loop that did not dispatch raises
   # (a `found` flag cleared before the loop and set where the parser runs is followed)
-  flag_start = tm.head
-  for p_ in cfg.pred[tm.head]:
-    if p_ not in cfg.reach_after({tm.head}):
-      st_ = cfg.nodes[p_].stmt
-      if cfg.nodes[p_].kind == "stmt" and isinstance(st_, ast.Assign) and \
-          isinstance(st_.value, ast.Constant) and isinstance(st_.value.value, bool):
-        flag_start = p_
-  esc = H.flag_path(cfg, flag_start, {dn.id}, removed | {cfg.exit.id}, after=(flag_start == tm.head))
+  esc = H.flag_path(cfg, tm.head, {dn.id}, removed | {cfg.exit.id}, after=True,
+                    known=H.flags_known_at(v, tm.head))
   ok = is_match and guarded and stops and esc is None
   run.ob(R1, ps.qualname, "for t in allowed: if m.group(t): _SLOT_PARSERS[t](m); break / else: "
          "raise", "the parser run is the one of the group that matched, and a slot type that is "
@@ -265,6 +261,8 @@ def _int_application(run, R2, fn, v, call, rx_of, cache, owner):
     mand = _mandatory_within(g, scope_top)
     if mand:
       certain, why = True, "the group takes part in every match of its slot type"
+    elif (v.t(read), True) in v.facts_at(call) and H.body_min_width(g.body) >= 1:
+      certain, why = True, "evaluated only where the group text is known to be non-empty"
     else:
       alt = _other_arm_tested(v, call, read, g, groups)
       if alt is not None:
@@ -449,6 +447,12 @@ def r4_errors(run, w, mod, ce):
       elif d in mod.classes and "__init__" in mod.classes[d].methods:
         tgt.append(mod.classes[d].methods["__init__"])
       elif isinstance(c.func, ast.Subscript) and text(c.func.value) == "_SLOT_PARSERS":
+        tgt.extend(mod.functions[f] for f in parsers.values())
+      elif isinstance(c.func, ast.Name) and d not in mod.functions and d not in mod.classes and \
+          any(isinstance(x, ast.Assign) and isinstance(x.value, ast.Subscript) and
+              text(x.value.value) == "_SLOT_PARSERS" and
+              any(isinstance(t, ast.Name) and t.id == c.func.id for t in x.targets)
+              for x in walk_no_nested(fi.node)):
         tgt.extend(mod.functions[f] for f in parsers.values())
       elif isinstance(c.func, ast.Attribute):
         for ci in mod.classes.values():
